@@ -52,7 +52,9 @@ def directives (h : Header) : List (Str × Option Str) :=
 structure Reader where
   read : Header → Str → Option (Option Str)
 
-/-- the RFC reading: the argument of the LAST occurrence, except for no-cache: an unqualified one
+/-- the RFC reading: the argument of the FIRST occurrence (RFC 9111 §4.2.1: with more than one value for a
+    directive "either the first occurrence should be used or the response should be considered stale" — a
+    cache may therefore only rely on what the first one grants), except for no-cache: an unqualified one
     (the stricter form) is not relaxed by another occurrence, and several qualified ones name the
     fields of all their lists (each occurrence is a statement of the origin; none withdraws another) -/
 def rfcRead (h : Header) (name : Str) : Option (Option Str) :=
@@ -61,7 +63,15 @@ def rfcRead (h : Header) (name : Str) : Option (Option Str) :=
     if occ.isEmpty then none
     else if occ.any (fun d => d.2 = none || d.2 = some []) then some none
     else some (some (joinWith [','] (occ.filterMap (·.2))))
-  else occ.getLast?.map (·.2)
+  else occ.head?.map (·.2)
+
+/-- a directive occurs more than once with different arguments (then "considered stale" is as conforming as
+    "first occurrence": liveness is not demanded) -/
+def conflictingDuplicate (h : Header) (name : Str) : Bool :=
+  let occ := ((directives h).filter (·.1 = name)).map (·.2)
+  match occ with
+  | [] => false
+  | a :: r => r.any (· ≠ a)
 
 def rfc : Reader := ⟨rfcRead⟩
 
